@@ -108,6 +108,15 @@ impl ByteArena {
         anchor::NUM_LIVE_BYTES.load(Ordering::Relaxed)
     }
 
+    /// Verification-only (`--cfg woodpile_verif`): every live chunk in the
+    /// process as `(address, length, allocation ordinal)`, and the ordinal
+    /// the next chunk will get.
+    #[cfg(woodpile_verif)]
+    #[must_use]
+    pub fn verif_live_chunks() -> (Vec<(usize, usize, u64)>, u64) {
+        anchor::verif_registry::snapshot()
+    }
+
     /// Flushes the arena's internal allocation cache.
     #[inline(never)] // The destructor can turn into a lot of code.
     pub fn flush_cache(&mut self) {
